@@ -3,7 +3,7 @@
    every size, every (Ne, nPg); none has a hypothesis relating Ne, nPg and tensor dimensions.
    The model is tied to /repo by the exact differential correspondence of props/C12.py. *)
 From Coq Require Import List Arith Bool ZArith QArith Lia.
-From EFModel Require Import C12_FeShape C12_FeTensor C12_FeProofs C12_FeFlat C12_FeReduce2 C12_FeQ.
+From EFModel Require Import C12_FeShape C12_FeTensor C12_FeProofs C12_FeFlat C12_FeReduce2 C12_FeReduceN C12_FeQ.
 Import ListNotations.
 Local Open Scope nat_scope.
 
@@ -190,6 +190,23 @@ Definition C12_inplace_fe_plain := inplace_fe_plain.
 Print Assumptions reducer_keepdims_typing.
 Print Assumptions reduce_pair_is_composition.
 Print Assumptions sum_pair_is_composition_Z.
+(* ANY tuple of axes (ascending positions): peel the largest position first; iterated, the tuple
+   reduction is one single-axis reduction per axis -- for every array and every reducer with
+   f (concat ls) = f (map f ls) and f [x] = x *)
+Definition C12_reduce_snoc_is_composition := reduce_snoc_is_composition.
+Definition C12_reduce_tuple_is_composition := reduce_tuple_is_composition.
+Definition C12_qsum_qprod_tuple_is_composition := qsum_qprod_tuple_is_composition.
+Print Assumptions reduce_snoc_is_composition.
+Print Assumptions reduce_tuple_is_composition.
+Print Assumptions qsum_qprod_tuple_is_composition.
+Example tuple_hyp_satisfiable : asc [2; 3] /\ asc [1; 3; 4].
+Proof.
+  split; [change [2; 3] with (([] ++ [2]) ++ [3]) | exact asc_example];
+    repeat (apply asc_snoc); try apply asc_nil; unfold all_below; repeat constructor.
+Qed.
+(* the rational sum / product the case files compute with (Leibniz equality in Q) *)
+Definition C12_qsum_qprod_pair_is_composition := qsum_qprod_pair_is_composition.
+Print Assumptions qsum_qprod_pair_is_composition.
 Print Assumptions swapaxes_tensor_pointwise.
 Print Assumptions stack_tensor_pointwise.
 Print Assumptions concat_tensor_pointwise.
